@@ -63,6 +63,7 @@ func runC03(r *rep.Report, thorough bool) error {
 		return err
 	}
 	defer d.Close()
+	realTextOf := map[string]string{}
 	as := analyseCases(l)
 	var files []gobuild.GenFile
 	var good []*analysed
@@ -112,6 +113,7 @@ func runC03(r *rep.Report, thorough bool) error {
 		}
 		// (2) the assembled file: names declared once, mentions resolved
 		text := t.Text["gen.ts"]
+		realTextOf[a.Case.ID] = text
 		declared := map[string]int{}
 		for _, m := range tsDeclNameRe.FindAllStringSubmatch(lineCommentRe.ReplaceAllString(text, ""), -1) {
 			declared[m[1]]++
@@ -198,6 +200,22 @@ func runC03(r *rep.Report, thorough bool) error {
 		if err != nil {
 			return err
 		}
+		// the same documents against the types DECLARED BY THE REAL TEXT: the generated file is
+		// parsed (tsparse.go) into the type environment of the Lean semantics
+		var realInh []any
+		if txt := realTextOf[id]; txt != "" {
+			if tenv, perr := tsParseEnv(txt); perr != nil {
+				r.Hist("real-declarations:outside-the-parsed-grammar")
+				r.Note("typescript parse (%s): %v", id, perr)
+			} else {
+				rr, err := d.Call(map[string]any{"op": "c03.checkReal", "env": a.Env, "tenv": tenv, "values": vals})
+				if err != nil {
+					return err
+				}
+				realInh, _ = rr["inhabits"].([]any)
+				r.Hist("real-declarations:parsed-and-evaluated")
+			}
+		}
 		// the end-to-end theorem (Props/C03E2E.lean) on this program: is it inside the fragment, are
 		// the dumped values well-typed — then the theorem says the documents inhabit their types
 		var tvals []map[string]any
@@ -221,6 +239,13 @@ func runC03(r *rep.Report, thorough bool) error {
 				if !ok.(bool) {
 					r.Disagree(rep.Disagreement{Tie: "c03.end-to-end-theorem-vs-real-document", Input: map[string]any{"case": id, "type": ln.Type, "doc": ln.Doc, "sources": a.Case.Sources()},
 						Model: "theorem C03_end_to_end: the document of a well-typed value of a program in the fragment inhabits its type", Impl: "the real document does not"})
+				}
+			}
+			// a document the model's types admit and the REAL declarations do not: the real text
+			// differs from the model in a way documents see
+			if realInh != nil && i < len(realInh) && ok.(bool) {
+				if rok, _ := realInh[i].(bool); !rok {
+					r.Fail(rep.Failure{Signature: "c03:document-not-inhabitant-of-the-real-declarations" + c03Shape(a, ln), What: "a JSON document emitted by Go for " + ln.Type + " inhabits the type the model generates but not the type the real text declares (parsed from the generated file)", Input: map[string]any{"case": id, "type": ln.Type, "doc": ln.Doc, "sources": a.Case.Sources()}})
 				}
 			}
 			nontrivial := strings.ContainsAny(ln.Doc, "[{") && len(ln.Doc) > 20
